@@ -29,6 +29,25 @@ MultiprocessingOutput = namedtuple(
     )
 
 
+def _log_has_complete_inputs(log_path: str) -> bool:
+    """ Check that a study log holds a complete block of inputs.
+
+    A study that was killed while its log header was being written leaves a log without (all of) its inputs. Such a
+    study never started a case, so it must be started afresh rather than restarted from a partial set of inputs.
+    """
+
+    with open(log_path, 'r') as log_file:
+        lines = log_file.readlines()
+    inputs_started = False
+    for line in lines:
+        if not inputs_started:
+            if line == '------Inputs Below------\n':
+                inputs_started = True
+        elif line == '------------\n':
+            return True
+    return False
+
+
 def multiprocessing_run(
     directory_name: str, study_name: str, study_function: callable, input_data: tuple,
     postprocess_func: callable = None, postprocess_args: tuple = None, postprocess_kwargs: dict = None,
@@ -105,7 +124,10 @@ def multiprocessing_run(
                         break
                     new_study_num += 1
             else:
-                study_restart = True
+                # Only a log with a complete set of inputs can be restarted from.
+                study_restart = _log_has_complete_inputs(mp_log_path)
+                if verbose and not study_restart:
+                    print('\tPrevious study stopped before it recorded its inputs. Starting it afresh.')
 
     mp_log_path = os.path.join(dir_to_use, 'tpy_mp.log')
     input_data_to_use = input_data
